@@ -1,6 +1,6 @@
 (* C05 - executable comparison functions used by the generated cases file (no proofs). *)
 From Coq Require Import List NArith Bool.
-From Dae Require Import C05_Spec C05_Model C05_SpliceModel.
+From Dae Require Import C05_Spec C05_Model C05_SpliceModel C05_WritevModel.
 From Dae.gen Require Import C05_Extracted.
 Import ListNotations.
 Open Scope N_scope.
@@ -155,3 +155,13 @@ Definition check_reset (o : list N * list N * list N * list N * bool) : list N :
   let '(su, sd, gu, gd, client_resets) := o in
   e 21 (if client_resets then list_eqb gu su else is_prefix gu su)
   ++ e 22 (if client_resets then is_prefix gd sd else list_eqb gd sd).
+
+(* ------------------------------------------------------------------ gather write over a scripted writev *)
+Definition check_writev (o : list (list N) * list wcall * list N * N * bool) : list N :=
+  let e c (b : bool) := if b then [] else [c] in
+  let '(segs, script, wire, written, ok) := o in
+  let '(w, n, mwire) := writev_all c05_writev_advance_per_call script segs in
+  let mdone := match w with WDone => true | _ => false end in
+  e 46 (list_eqb wire mwire && (written =? N.of_nat n) && Bool.eqb ok mdone)
+  ++ e 21 (is_prefix wire (concat segs) && (negb ok || list_eqb wire (concat segs)) && (written =? len wire))
+  ++ e 31 (is_prefix mwire (concat segs) && (negb mdone || list_eqb mwire (concat segs))).
